@@ -277,7 +277,11 @@ func (t *TClient) Exec(c *Ctx, op TOp) bool {
 		for k, v := range op.Opts {
 			o[k] = v
 		}
-		return t.SendRec(&wamp.Publish{Request: t.NextReq(), Options: o, Topic: op.URI, Arguments: wamp.List{fmt.Sprintf("p:%s:%s", t.Name, op.URI), t.pubSeq[op.URI]}})
+		args := wamp.List{fmt.Sprintf("p:%s:%s", t.Name, op.URI), t.pubSeq[op.URI]}
+		if op.Chunks > 0 {
+			args = append(args, strings.Repeat("x", op.Chunks)) // a large event among small ones
+		}
+		return t.SendRec(&wamp.Publish{Request: t.NextReq(), Options: o, Topic: op.URI, Arguments: args})
 	case tReg:
 		req := t.NextReq()
 		t.RegReq[req] = op
@@ -488,6 +492,9 @@ func GenTraffic(g *Rand, tc TrafficCfg) []TOp {
 				}
 				if g.Bool() {
 					op.Opts["exclude_me"] = false
+				}
+				if g.Chance(1, 8) {
+					op.Chunks = []int{600, 3000, 5000, 9000}[g.Intn(4)] // payload padding
 				}
 				if g.Chance(1, 5) {
 					// receiver filters: the broker looks at every subscriber's session details
